@@ -24,7 +24,7 @@ RULE = (
     "the fresh operand and every fresh derived circuit reproduce the outputs recorded at the save on all inputs; in every state "
     "the learnable entries of state_dict(keep_vars=True) are in bijection with the circuit's nn.Parameters and with the "
     "learnable symbolic tensors' compiled storage; the same exploration on partially frozen models (every second parameterised "
-    "layer non-learnable with a random initialiser). State key = (rounded operand tensor bytes, snapshot bytes)"
+    "layer non-learnable with a random initialiser) and with the fresh instance in evaluation mode, evaluated once before the load. State key = (rounded operand tensor bytes, snapshot bytes)"
 )
 ASSUMPTIONS = ["aliasing of one operand tensor under several pointer keys in a derived circuit's dictionary is not counted as a duplicate",
                "fresh instances are compiled from the same symbolic objects with a new TorchCompiler"]
@@ -40,6 +40,10 @@ def cases(tier, seed):
         for semiring, fold, optimize in [("sum-product", False, False), ("sum-product", True, True), ("sum-product", True, False),
                                          ("complex-lse-sum", False, True)]:
             yield {"base": bi, "semiring": semiring, "fold": fold, "optimize": optimize, "depth": BOUNDS[tier]["depth"]}
+    # fresh instances in evaluation mode, evaluated once before the load (memoisation in eval mode must not survive a load)
+    for bi in range(min(3 if tier == "quick" else 6, BOUNDS[tier]["bases"])):
+        for semiring, fold, optimize in [("sum-product", True, True), ("sum-product", False, False)]:
+            yield {"base": bi, "semiring": semiring, "fold": fold, "optimize": optimize, "depth": BOUNDS[tier]["depth"] - 1, "mode": "eval"}
     # partially frozen models: every second parameterised layer holds NON-learnable tensors with a random initialiser (their
     # fresh values differ between two compilations, so only the state dictionary can carry them over)
     for bi in range(min(4 if tier == "quick" else 8, BOUNDS[tier]["bases"])):
@@ -123,6 +127,11 @@ class World:
             # L: only the operand exists when the snapshot is loaded; the derived circuits are compiled afterwards in
             #    the same context (lazily, on evaluation). LD: everything is compiled first, then the derived dict is loaded.
             fresh = Compiled(self.pipe.circuits, *self.flags, compile_only=[0] if ev == "L" else [0] + self.targets)
+            if self.case.get("mode") == "eval":
+                # the fresh instance is put in evaluation mode and evaluated once BEFORE the dictionary is loaded
+                for t in ([0] if ev == "L" else [0] + self.targets):
+                    fresh.cc(self.pipe.circuits[t]).eval()
+                    fresh.evaluate(self.pipe.circuits[t], self.rows[t], self.nvars)
             try:
                 if ev == "L":
                     res = fresh.cc(self.pipe.circuits[0]).load_state_dict(self.snapshot, strict=True)
@@ -195,7 +204,7 @@ def run_case(case):
     res = bfs.explore(lambda: {"saved": False}, enabled, replay_factory(case, seed), case["depth"], isolate=False)
     out = {"status": "violation" if res.violations else "ok", "nontrivial": res.states > 1, "nontrivial_n": max(0, res.states - 1),
            "states": res.states, "transitions": res.transitions, "traces": res.replays, "evaluations": res.transitions,
-           "dims": {"base": case["base"], "cfg": f"{case['semiring']}/{case['fold']}/{case['optimize']}", "frozen": str(case.get("frozen"))},
+           "dims": {"base": case["base"], "cfg": f"{case['semiring']}/{case['fold']}/{case['optimize']}", "frozen": str(case.get("frozen")), "mode": case.get("mode", "train")},
            "outcome": f"{res.states}", "summary": f"states={res.states} transitions={res.transitions} e.g. {res.sample_histories[:1]}"}
     if res.violations:
         out["violations"] = [{"sig": sig, "detail": msg, "case": dict(case, history=hist)} for hist, msg, sig in res.violations]
